@@ -1,15 +1,30 @@
 //go:build verif
 
+// Command pure hosts the monitors that need no application instance (D0 driver).
 package main
 
 import (
 	"fmt"
+	"os"
 
-	"github.com/osmosis-labs/osmosis/osmomath"
-	"github.com/osmosis-labs/osmosis/osmoutils/sumtree"
-	clmath "github.com/osmosis-labs/osmosis/v31/x/concentrated-liquidity/math"
+	"github.com/osmosis-labs/osmosis/v31/zzverif/vk"
 )
 
+var monitors = map[string]func(*vk.Ctx){
+	"C12": runC12,
+}
+
 func main() {
-	fmt.Println(osmomath.NewBigDec(3), clmath.TickToSqrtPrice, sumtree.NewTree)
+	if len(os.Args) < 2 {
+		fmt.Println("usage: pure <property>")
+		os.Exit(2)
+	}
+	fn, ok := monitors[os.Args[1]]
+	if !ok {
+		fmt.Println("unknown property", os.Args[1])
+		os.Exit(2)
+	}
+	c := vk.NewCtx(os.Args[1])
+	fn(c)
+	c.Finish()
 }
